@@ -230,6 +230,9 @@ def shard_add_api(seed, idx, n):
             from in_toto.models.layout import Layout
             bad = rng.choice([["CREATE"], ["MATCH", "x"], ["SUBVERT", "x"], ["ALLOW", "a", "b"], ["MATCH", "*", "WITH", "NOTHING", "FROM", "s"]])
             lst = getattr(obj, "expected_%ss" % which)
+            # (a layout that holds the object and has validated before the change)
+            holder = Layout(steps=[obj]) if isinstance(obj, Step) else Layout(inspect=[obj])
+            holder.validate()
             how = rng.choice(["append", "edit_in_place"])
             if how == "append" or not lst:
                 lst.append(list(bad))
@@ -237,8 +240,12 @@ def shard_add_api(seed, idx, n):
                 lst[0].append("junk")
                 bad = list(lst[0])
             outs = {}
+            from in_toto.models.metadata import Metablock
             for label, call in (("validate", obj.validate),
-                                ("layout", (lambda: Layout(steps=[obj])) if isinstance(obj, Step) else (lambda: Layout(inspect=[obj])))):
+                                ("layout", (lambda: Layout(steps=[obj])) if isinstance(obj, Step) else (lambda: Layout(inspect=[obj]))),
+                                # the layout that already held it: asked once, asked again, wrapped for signing
+                                ("holder_validate", holder.validate), ("holder_validate_again", holder.validate),
+                                ("holder_wrapped", lambda: Metablock(signed=holder)), ("validate_again", obj.validate)):
                 try:
                     call()
                     outs[label] = "accepted"
